@@ -94,13 +94,14 @@ def frozen_ctes(df, as_left: bool):
     return list(df.expression.ctes)
 
 
-def observe_lineage(case, session, F, builder=None):
+def observe_lineage(case, session, F, builder=None, self_exact=False, rename_in_place=False):
     """What the Coq model takes as given: per table the (branch, seq) of the CTEs it brings, per join whether both sides
     have the same branch id, per df-reference the branch id and the `uo` bit, per alias the sequence ids registered.
     `builder`: the Builder that ran the case (its DataFrame objects are the ones observed); a fresh one otherwise."""
     b = builder or cc.Builder(session, F, case["data"])
     ids = Ids()
-    out = {"tables": [], "same_branch": [], "known": [], "stale": [], "objs": b, "ids": ids, "error": None}
+    out = {"tables": [], "same_branch": [], "known": [], "stale": [], "right_uuid": [], "self_exact": self_exact,
+           "objs": b, "ids": ids, "error": None}
     try:
         left = b.df(case["left"])
         stages = getattr(b, "stages", None) or [left]
@@ -114,7 +115,7 @@ def observe_lineage(case, session, F, builder=None):
             # (visible through other_df), but works on transformed COPIES of the following ones -- their old names stay in other_df
             rname = segs[-1][-1].alias_or_name
             earlier_collision = any(c.alias_or_name in existing for c in segs[-1][:-1])
-            out["stale"].append(tnames.index(rname) if (rname in tnames and earlier_collision) else None)
+            out["stale"].append(tnames.index(rname) if (rname in tnames and earlier_collision and not rename_in_place) else None)
             if i + 1 < len(stages):
                 js = stages[i + 1].expression.args.get("joins") or []
                 tnames.append(js[-1].this.alias_or_name if len(js) > i else "?")
@@ -127,6 +128,7 @@ def observe_lineage(case, session, F, builder=None):
                 cur = stages[-1]
             out["same_branch"].append(cur.branch_id == r.branch_id)
             out["known"].append((set(cur.known_uuids), set(r.known_uuids)))
+            out["right_uuid"].append(r.join_on_uuid)
         for seg in segs:
             out["tables"].append([(ids(c.args["branch_id"]), ids(c.args["sequence_id"])) for c in seg])
     except Exception as ex:
@@ -172,6 +174,9 @@ def ref_coq(r, case, lin, step_i):
         if step_i is not None and step_i < len(lin.get("known", [])):
             kl, kr = lin["known"][step_i]
             uo = obj.join_on_uuid in (kr - kl)
+            if lin.get("self_exact") and step_i < len(lin.get("right_uuid", [])):
+                # (regenerated fact) a reference taken from the very DataFrame being joined goes to the right table as well
+                uo = uo or obj.join_on_uuid == lin["right_uuid"][step_i]
         return f"(RDf {natlit(t)} {natlit(lin['ids'](obj.branch_id))} {boollit(uo)} {strlit(r[2])})"
     if r[0] == "alias":
         t = alias_positions(case).get(r[1])
